@@ -95,7 +95,11 @@ func r13_1(c *Ctx, a *parserAnchors) {
 			if at.neg {
 				falseSucc = b.Succs[0]
 			}
-			if why := errorBeforeExit(a, falseSucc); why != "" {
+			trueSucc := b.Succs[0]
+			if at.neg {
+				trueSucc = b.Succs[1]
+			}
+			if why := errorBeforeExitOrJoin(a, falseSucc, trueSucc); why != "" {
 				c.bad(key, u.Pos(), "with the flag false this branch %s without recording an error first: strict and tolerant mode can differ on a program that produces no error", why)
 			} else {
 				c.ok(key, u.Pos(), "flag-false edge records an error before any return/advance")
@@ -143,8 +147,327 @@ func errorBeforeExit(a *parserAnchors, start *ssa.BasicBlock) string {
 	return rec(start)
 }
 
-// R13.2: smart semicolons only for '(' / '[' after a line break
+// errorBeforeExitOrJoin: like errorBeforeExit, but a path that — without any side effect — reaches code that is also
+// executed when the flag is true (and merges no differing value there) behaves exactly like the tolerant run.
+func errorBeforeExitOrJoin(a *parserAnchors, start, trueSucc *ssa.BasicBlock) string {
+	reachT := map[*ssa.BasicBlock]bool{}
+	var mark func(b *ssa.BasicBlock)
+	mark = func(b *ssa.BasicBlock) {
+		if reachT[b] {
+			return
+		}
+		reachT[b] = true
+		for _, s := range b.Succs {
+			mark(s)
+		}
+	}
+	mark(trueSucc)
+	seen := map[*ssa.BasicBlock]bool{}
+	var rec func(b *ssa.BasicBlock) string
+	rec = func(b *ssa.BasicBlock) string {
+		if seen[b] {
+			return ""
+		}
+		seen[b] = true
+		if reachT[b] && b != start {
+			for _, in := range b.Instrs {
+				if phi, ok := in.(*ssa.Phi); ok {
+					if !allSame(phi.Edges) {
+						return "merges a flag-dependent value"
+					}
+					continue
+				}
+				break
+			}
+			return "" // from here on the strict run executes what the tolerant run executes
+		}
+		for _, in := range b.Instrs {
+			switch x := in.(type) {
+			case *ssa.Call:
+				cal := x.Call.StaticCallee()
+				if a.errRecorders[cal] {
+					return ""
+				}
+				if cal != nil && (a.purePredicate(cal) || a.pureReader(cal)) {
+					continue
+				}
+				if cal == nil || isLibPath(pkgPathOf(cal)) {
+					return "calls " + x.Call.Value.Name()
+				}
+			case *ssa.Return:
+				return "returns"
+			case *ssa.Store:
+				if !isLocalCell(x.Addr) {
+					return "writes state"
+				}
+			case *ssa.MapUpdate:
+				return "writes state"
+			}
+		}
+		for _, s := range b.Succs {
+			if why := rec(s); why != "" {
+				return why
+			}
+		}
+		return ""
+	}
+	return rec(start)
+}
+
+// R13.2: smart semicolons only for '(' / '[' after a line break.
+//
+// Decided as a non-interference property of the expression loop: its paths (conditions that are pure predicates of
+// the package or membership tests in token lists are expanded) are paired — one taken with the flag set, one with the
+// flag clear, otherwise compatible facts — and whenever the two end differently (one cuts the expression and returns
+// the left operand, the other goes on), the facts of the pair must include "peek token follows a line break" and
+// "peek type is '(' or '['". The flag may be read only in that loop and in pure predicates used as its conditions.
 func r13_2(c *Ctx, a *parserAnchors) {
+	c.rule("R13.2", "the smart-semicolon flag is read only by the expression loop (and pure predicates it uses as conditions); two runs that differ only in the flag end an iteration differently only when the peek token follows a line break and is '(' or '['")
+	c.floor(1)
+	t := c.tables()
+	tc := t.tc
+	allowed := map[int64]bool{tc.byName["LPAREN"]: true, tc.byName["LBRACKET"]: true}
+	loop, _ := climbingLoop(c, t, a)
+	if loop == nil {
+		c.unres("expression loop", token.NoPos, "not found")
+		return
+	}
+	// who may read the flag: the loop, and pure predicates all of whose call sites are in allowed readers
+	allowedReader := map[*ssa.Function]bool{loop: true}
+	for changed := true; changed; {
+		changed = false
+		for _, f := range c.libFunctions("parser") {
+			if allowedReader[f] || !a.purePredicate(f) {
+				continue
+			}
+			sites, all := 0, true
+			for _, g := range c.libFunctions() {
+				allInstrs(g, func(_ *ssa.BasicBlock, _ int, in ssa.Instruction) {
+					if ci, ok := in.(ssa.CallInstruction); ok && ci.Common().StaticCallee() == f {
+						sites++
+						if !allowedReader[g] {
+							all = false
+						}
+					}
+				})
+			}
+			if sites > 0 && all {
+				allowedReader[f] = true
+				changed = true
+			}
+		}
+	}
+	// who reads the flag
+	nReads := 0
+	for _, f := range c.libFunctions("parser") {
+		n := 0
+		allInstrs(f, func(b *ssa.BasicBlock, _ int, in ssa.Instruction) {
+			u, ok := in.(*ssa.UnOp)
+			if !ok {
+				return
+			}
+			if _, ok := isFieldLoad(u, a.smart); !ok {
+				return
+			}
+			n++
+			nReads++
+			key := fmt.Sprintf("%s: read #%d of the smart-semicolon flag", fnName(f), n)
+			if !allowedReader[f] {
+				c.bad(key, u.Pos(), "the flag is read outside the expression loop and outside the pure predicates that loop uses as conditions: it can steer something other than the documented cut")
+				return
+			}
+			okUse := true
+			var walk func(v ssa.Value, depth int)
+			walk = func(v ssa.Value, depth int) {
+				if v.Referrers() == nil || depth > 4 {
+					return
+				}
+				for _, r := range *v.Referrers() {
+					switch x := r.(type) {
+					case *ssa.If, *ssa.DebugRef, *ssa.Return:
+					case *ssa.UnOp:
+						walk(x, depth+1)
+					case *ssa.Phi:
+						walk(x, depth+1)
+					default:
+						okUse = false
+					}
+				}
+			}
+			walk(u, 0)
+			c.check(okUse, key, u.Pos(), "used only as a branch condition (or as the result of a pure predicate)", "the flag flows into something other than a branch condition")
+		})
+	}
+	if nReads == 0 {
+		c.unres("smart-semicolon flag", loop.Pos(), "no read of the flag found")
+		return
+	}
+	// path pairs
+	type outcome struct {
+		kind string // "cut" (returns the left operand), "return" (other return), "continue" (back edge), "apply"
+		pos  token.Pos
+	}
+	type lpath struct {
+		facts []pathFact
+		out   outcome
+		flag  int // 1 set, 0 clear, -1 not read
+	}
+	var paths []lpath
+	complete := a.enumPathsAll(loop.Blocks[0], func(facts []pathFact, blocks []*ssa.BasicBlock, last *ssa.BasicBlock, back bool) {
+		lp := lpath{facts: facts, flag: -1}
+		for _, pf := range facts {
+			if pf.at.kind == atFlag && pf.at.fld == a.smart {
+				if pf.at.neg {
+					lp.flag = 0
+				} else {
+					lp.flag = 1
+				}
+			}
+		}
+		consumed := false
+		for _, b := range blocks {
+			for _, call := range callsIn(b) {
+				cal := call.Call.StaticCallee()
+				if cal == nil || !(a.purePredicate(cal) || a.pureReader(cal)) {
+					if cal == nil || isLibPath(pkgPathOf(cal)) {
+						consumed = true
+					}
+				}
+			}
+		}
+		switch {
+		case back || consumed:
+			lp.out = outcome{kind: "continue"}
+		default:
+			ret, _ := last.Instrs[len(last.Instrs)-1].(*ssa.Return)
+			if ret != nil && len(ret.Results) == 1 && isLeftOperand(ret.Results[0], loop) {
+				lp.out = outcome{kind: "cut", pos: ret.Pos()}
+			} else {
+				lp.out = outcome{kind: "return"}
+				if ret != nil {
+					lp.out.pos = ret.Pos()
+				}
+			}
+		}
+		paths = append(paths, lp)
+	})
+	if !complete {
+		c.unres(fnName(loop)+": paths", loop.Pos(), "too many paths")
+		return
+	}
+	// is this path an ordinary loop exit (level comparison failed / explicit ';')? those are the same for both flag values
+	compatible := func(p, q []pathFact) bool {
+		for _, x := range p {
+			for _, y := range q {
+				if x.at.kind != y.at.kind {
+					continue
+				}
+				switch x.at.kind {
+				case atPeekType, atCurType:
+					if x.at.k == y.at.k && x.at.neg != y.at.neg {
+						return false
+					}
+					if !x.at.neg && !y.at.neg && x.at.k != y.at.k {
+						return false
+					}
+				case atPeekNewline:
+					if x.at.neg != y.at.neg {
+						return false
+					}
+				case atFlag:
+					if x.at.fld == y.at.fld && x.at.fld != a.smart && x.at.neg != y.at.neg {
+						return false
+					}
+				case atCmp:
+					if x.at.bin == y.at.bin && x.at.neg != y.at.neg {
+						return false
+					}
+				case atCall:
+					if x.at.call == y.at.call && x.at.neg != y.at.neg {
+						return false
+					}
+				}
+			}
+		}
+		return true
+	}
+	var problems []string
+	pairs := 0
+	for _, p := range paths {
+		if p.flag != 1 {
+			continue
+		}
+		for _, q := range paths {
+			if q.flag != 0 || !compatible(p.facts, q.facts) {
+				continue
+			}
+			pairs++
+			if p.out.kind == q.out.kind {
+				continue
+			}
+			nl, ty := false, false
+			for _, pf := range append(append([]pathFact(nil), p.facts...), q.facts...) {
+				if pf.at.kind == atPeekNewline && !pf.at.neg {
+					nl = true
+				}
+				if pf.at.kind == atPeekType && !pf.at.neg && allowed[pf.at.k] {
+					ty = true
+				}
+			}
+			var others []string
+			for _, pf := range p.facts {
+				if pf.at.kind == atPeekType && !pf.at.neg && !allowed[pf.at.k] {
+					others = append(others, tc.name(pf.at.k))
+				}
+			}
+			where := c.pos(p.out.pos)
+			if where == "" {
+				where = c.pos(q.out.pos)
+			}
+			switch {
+			case !nl:
+				problems = append(problems, fmt.Sprintf("with the flag set an iteration ends as %q, with the flag clear as %q, on a path that does not require the peek token to follow a line break (%s)", p.out.kind, q.out.kind, where))
+			case !ty:
+				problems = append(problems, fmt.Sprintf("with the flag set an iteration ends as %q, with the flag clear as %q, for a peek token that is not '(' or '[' (%s) (%s)", p.out.kind, q.out.kind, strings.Join(dedupSorted(others), ","), where))
+			case p.out.kind != "cut":
+				problems = append(problems, fmt.Sprintf("the flag-set run does not simply return the left operand (%s)", where))
+			}
+		}
+	}
+	// the documented cut happens: with the flag set, a path compatible with "peek follows a line break and is k"
+	// (k = '(' or '[') must end as a cut — no further condition may keep the loop going, and nothing may be consumed
+	for k := range allowed {
+		want := []pathFact{{atom{kind: atPeekNewline}, nil}, {atom{kind: atPeekType, k: k}, nil}}
+		for _, p := range paths {
+			if p.flag != 1 || !compatible(p.facts, want) || p.out.kind == "cut" {
+				continue
+			}
+			var conds []string
+			for _, pf := range p.facts {
+				switch pf.at.kind {
+				case atCmp, atCall, atOpaque, atCurType, atNil:
+					if pf.at.bin != nil {
+						conds = append(conds, c.pos(pf.at.bin.Pos()))
+					} else if pf.at.call != nil {
+						conds = append(conds, c.pos(pf.at.call.Pos()))
+					}
+				}
+			}
+			problems = append(problems, fmt.Sprintf("with the flag set and %s at the start of a line, an iteration can end as %q instead of returning the left operand untouched (further conditions on that path: %s)", tc.name(k), p.out.kind, strings.Join(dedupSorted(conds), ", ")))
+		}
+	}
+	key := fnName(loop) + ": runs that differ only in the flag"
+	switch {
+	case pairs == 0:
+		c.unres(key, loop.Pos(), "no pair of paths with the flag set / clear found in the loop")
+	case len(problems) > 0:
+		c.bad(key, loop.Pos(), "%s", strings.Join(dedupSorted(problems), "; "))
+	default:
+		c.ok(key, loop.Pos(), "%d path pairs; they end differently only for '(' / '[' after a line break, where the flag-set run returns the left operand without consuming", pairs)
+	}
+}
+
+func r13_2_old(c *Ctx, a *parserAnchors) {
 	c.rule("R13.2", "every read of the smart-semicolon flag gates only cuts that require the peek token's after-newline flag and a peek type in {'(', '['}, returning the left operand without consuming")
 	c.floor(1)
 	tc := c.tokenConsts()
